@@ -406,14 +406,17 @@ func ReduceStepsMetadata(layout Layout,
 				"', no link metadata found.")
 		}
 
-		// Get the first link (could be any link) for the current step, which will
-		// serve as reference link for below comparisons
+		// Get the link with the smallest key id for the current step, which will
+		// serve as reference link for below comparisons.  Any link would do for
+		// the comparisons, but the reference link ends up in the summary link,
+		// which must not depend on the map iteration order.
 		var referenceKeyID string
 		var referenceLinkEnv Metadata
 		for keyID, linkEnv := range linksPerStep {
-			referenceLinkEnv = linkEnv
-			referenceKeyID = keyID
-			break
+			if referenceLinkEnv == nil || keyID < referenceKeyID {
+				referenceLinkEnv = linkEnv
+				referenceKeyID = keyID
+			}
 		}
 
 		// Only one link, nothing to reduce, take the reference link
